@@ -34,7 +34,7 @@ def jobs(tier):
             if tier == "quick":
                 continue      # the IEEE equality of two evaluations did not finish (MAE 300 s, others 900 s): attempted in the thorough tier only
             J.append(Job("missing_ignored@%s,k=%d" % (nm, k), "C15/stats.c", entry="h_missing_ignored", srcs=S + ["statistic.c"], kind="bounded",
-                         defines={"VC_UNIT_MISSING": None, "VC_N": 3, "VC_K": k, "VC_WHICH": which}, unwind=6, functions=[nm], timeout=3000, tier="thorough", bound="3 elements, missing code at position %d; values symbolic in (-1e3,1e3)" % k,
+                         defines={"VC_UNIT_MISSING": None, "VC_N": 3, "VC_K": k, "VC_WHICH": which}, unwind=6, functions=[nm], timeout=1200, tier="thorough", advisory=True, bound="3 elements, missing code at position %d; values symbolic in (-1e3,1e3)" % k,
                          clause="%s ignores a missing-coded truth (equal to the value on the vectors without it)" % nm))
     for (n, ny, nlv) in ([(2, 2, 2), (3, 1, 2)] if tier == "quick" else [(2, 2, 2), (3, 1, 2), (3, 2, 1), (3, 2, 2)]):
         J.append(Job("PLSRegressionStatistics@n=%d,ny=%d,nlv=%d" % (n, ny, nlv), "C15/stats.c", entry="h_PLSRegressionStatistics",
